@@ -75,17 +75,20 @@ func init() {
 					}
 					fs.WriteFile("/pkg/dir/"+fn, []byte(doc))
 				}
-				rw := &kio.LocalPackageReadWriter{PackagePath: "/pkg/dir", FileSystem: filesys.FileSystemOrOnDisk{FileSystem: fs},
+				// the package path as a caller may spell it (clean or not: it names the same directory)
+				pkgSpelling := pickS(r, []string{"/pkg/dir", "/pkg/dir", "/pkg/dir/", "/pkg/./dir", "/pkg/dir/.", "/pkg/shared/../dir"})
+				rw := &kio.LocalPackageReadWriter{PackagePath: pkgSpelling, FileSystem: filesys.FileSystemOrOnDisk{FileSystem: fs},
 					OmitReaderAnnotations: r.Intn(2) == 0, NoDeleteFiles: r.Intn(4) == 0, KeepReaderAnnotations: r.Intn(3) == 0, IncludeSubpackages: true}
-				in := map[string]interface{}{"mode": "pkg-readwrite", "omit": rw.OmitReaderAnnotations, "noDelete": rw.NoDeleteFiles, "files": dumpFS(fs, "/pkg/dir")}
+				in := map[string]interface{}{"mode": "pkg-readwrite", "packagePath": pkgSpelling, "omit": rw.OmitReaderAnnotations, "noDelete": rw.NoDeleteFiles, "files": dumpFS(fs, "/pkg/dir")}
 				nodes, err := rw.Read()
 				if err != nil {
 					o.note("pkg-rw-read-error", in)
 					continue
 				}
 				var kept []*yaml.RNode
+				dropAll := r.Intn(4) == 0 // a filter that drops everything: the package ends up empty, and stays where it is
 				for _, nd := range nodes {
-					if r.Intn(3) != 0 {
+					if r.Intn(3) != 0 && !dropAll {
 						kept = append(kept, nd)
 					}
 				}
